@@ -1,6 +1,11 @@
 """C14 – serialize=True always yields one parseable JSON line mirroring the record (DESIGN §4 C14)."""
+import collections
 import datetime as pydt
 import decimal
+import fractions
+import ipaddress
+import threading
+import uuid
 import enum
 import glob
 import io
@@ -356,6 +361,22 @@ class StrSub(str):
     pass
 
 
+class ListSub(list):
+    pass
+
+
+class DictSub(dict):
+    pass
+
+
+class IntF(enum.IntFlag):
+    A = 1
+    B = 2
+
+
+Point = collections.namedtuple("Point", "x y")
+
+
 class FloatSub(float):
     pass
 
@@ -399,7 +420,12 @@ def gen_leaf(rng, stats, allow_bad=True):
     if k in (17, 18):
         stats("leaf:object"); return Obj(gen_text(rng))
     if k == 19:
-        stats("leaf:complex"); return rng.choice([1j, complex(1, -2), range(3), Ellipsis, NotImplemented, int, len])
+        stats("leaf:complex")
+        return rng.choice([1j, complex(1, -2), range(3), Ellipsis, NotImplemented, int, len, Point(1, "a\n"),
+                           collections.OrderedDict([("b", 1), ("a", (2,))]), collections.defaultdict(list, {"k": [None]}),
+                           collections.UserDict({"u": 1}), collections.deque([1, "x"]), fractions.Fraction(1, 3),
+                           uuid.UUID(int=rng.range(0, 2**64)), ipaddress.ip_address("::1"), IntF.A | IntF.B, ListSub([1, [2]]),
+                           DictSub({"d": 1.5}), bytearray(b"\x00\xff"), collections.Counter("aab")])
     if k == 20:
         stats("leaf:subclass"); return rng.choice([StrSub(gen_text(rng, 4)), FloatSub(2.5), FloatSub("nan")])
     if k == 21:
@@ -783,6 +809,11 @@ def run_history(h, on_record):
                       filter=flt),
            logger.add(out.append, format=fmt_arg, serialize=True, catch=False, level=0, backtrace=False, diagnose=False,
                       filter=flt, **vkw)]
+    ctwin = []
+    if vkw.get("colorize") is True:
+        # colour explicitly requested: 'text' must be what a NON-serialising handler with colorize=True produces
+        ids.append(logger.add(ctwin.append, format=fmt_arg, colorize=True, catch=False, level=0, backtrace=False,
+                              diagnose=False, filter=flt))
     created = set()
     try:
         for i, st in enumerate(h["steps"]):
@@ -802,7 +833,11 @@ def run_history(h, on_record):
             if st[0] == "level":
                 logger.level(name, **st[2])
             else:
-                on_record(i, st[1], run_impl(st[1], pair=(token, out, twin)))
+                del ctwin[:]
+                res = run_impl(st[1], pair=(token, out, twin))
+                if len(ctwin) == 1:
+                    res["ctwin"] = str(ctwin[0])
+                on_record(i, st[1], res)
     finally:
         _ACTIVE[0] = None
         threading.current_thread().name, multiprocessing.current_process().name = names
@@ -991,6 +1026,113 @@ def check_catch_history(ctx, h, lines, expected):
     run_catch_history(h, on_record)
 
 
+# ----------------------------------------------------------------------------- big records
+def gen_big_case(seed):
+    """one record whose message / extra are LARGE (a size-dependent truncation, chunking or buffer reuse would show)"""
+    rng = core.Rng(seed)
+    c = gen_case(rng.next())
+    n = rng.choice([5000, 20000, 70000])
+    unit = gen_text(rng, 12) or "x\n"
+    c["message"] = (unit * (n // len(unit) + 1))[:n]
+    c["format"] = FORMATS[0]
+    c["bind"] = {"big": [rng.range(-10**9, 10**9) for _ in range(rng.choice([10, 3000]))],
+                 "wide": {"k%d" % i: gen_text(rng, 4) for i in range(rng.choice([5, 400]))},
+                 "long": Obj(gen_text(rng, 8) * rng.choice([1, 3000]))}
+    c["exc"] = None
+    return c
+
+
+# ----------------------------------------------------------------------------- concurrent calls on one handler
+def run_threads_case(seed, n_threads=4, per_thread=60):
+    """several threads log through ONE serialize=True handler at the same time (the switch interval is lowered so that
+    threads are switched in the middle of `_serialize_record`); returns [(thread index, case, Message)] and errors"""
+    logger = the_logger()
+    rng = core.Rng(seed)
+    token = "<threads %d>" % seed
+    got, errors = [], []
+    lock = threading.Lock()
+
+    def sink(m):
+        with lock:
+            got.append(m)
+    flt = lambda record: record["extra"].get("_c14_token") == token  # noqa: E731
+    hid = logger.add(sink, format="{message}", serialize=True, catch=False, level=0, backtrace=False, diagnose=False, filter=flt)
+    plans = []
+    for t in range(n_threads):
+        sub = core.Rng(rng.next())
+        plans.append([(gen_text(sub, 20), {"v": gen_value(sub, lambda *_: None), "n": [sub.range(0, 9)] * sub.choice([1, 50, 400])})
+                      for _ in range(per_thread)])
+    keep = sys.getswitchinterval()
+
+    def work(t):
+        lg = logger.bind(_c14_token=token, _c14_thread=t)
+        for i, (msg, extra) in enumerate(plans[t]):
+            try:
+                lg.bind(_c14_i=i, **extra).info(msg.replace("{", "{{").replace("}", "}}"))
+            except Exception as e:  # noqa
+                errors.append((t, i, e))
+    try:
+        sys.setswitchinterval(1e-6)
+        ths = [threading.Thread(target=work, args=(t,), name="c14-%d-%s" % (t, gen_text(rng, 3))) for t in range(n_threads)]
+        for th in ths:
+            th.start()
+        for th in ths:
+            th.join(60)
+    finally:
+        sys.setswitchinterval(keep)
+        logger.remove(hid)
+    return plans, got, errors
+
+
+def check_threads_case(ctx, seed):
+    plans, got, errors = run_threads_case(seed)
+    rep = {"stream": "threads", "threads_seed": seed}
+    probs = threads_oracle(plans, got, errors)
+    ctx.case(("threads", seed), nontrivial=True, n=len(got))
+    ctx.stat("stream:threads", len(got))
+    for what in probs[:1]:
+        ctx.violation(what + "  [threads seed %d]" % seed, dict(rep, expected="property C14", observed=what))
+
+
+def threads_oracle(plans, got, errors):
+    """every message is one JSON line mirroring ITS OWN record, whatever the other threads were serialising meanwhile"""
+    probs = []
+    expected = sum(1 for p in plans for (_, extra) in p if not has_other_key(extra) and not contains_bad(extra))
+    for t, i, e in errors:
+        _, extra = plans[t][i]
+        if not has_other_key(extra) and not contains_bad(extra):
+            probs.append("thread %d, call %d raised %r although every value has a str()" % (t, i, e))
+    if len(got) < expected:
+        probs.append("%d messages reached the sink, %d serialisable records were logged" % (len(got), expected))
+    for m in got:
+        s = str(m)
+        rec = m.record
+        where = "thread %r, call %r" % (rec["extra"].get("_c14_thread"), rec["extra"].get("_c14_i"))
+        if not s.endswith("\n") or "\n" in s[:-1] or "\r" in s:
+            probs.append("%s: not exactly one line" % where)
+            continue
+        try:
+            parsed = json.loads(s)
+        except ValueError as e:
+            probs.append("%s: json.loads fails: %s" % (where, e))
+            continue
+        r = parsed.get("record", {}) if isinstance(parsed, dict) else {}
+        if contains_bad(rec["extra"]):
+            probs.append("%s: a value whose str() raises was serialised?!" % where)
+        elif has_other_key(rec["extra"]):
+            pass            # F33 repaired?  how such a key is rendered is not prescribed
+        elif not isinstance(parsed, dict) or parsed.get("text") != rec["message"] + "\n":
+            probs.append("%s: 'text' is %r, the record's message is %r"
+                         % (where, str(parsed.get("text") if isinstance(parsed, dict) else parsed)[:60], rec["message"][:60]))
+        elif r.get("message") != rec["message"]:
+            probs.append("%s: record.message is %r, the record's own is %r" % (where, str(r.get("message"))[:60], rec["message"][:60]))
+        elif r.get("thread") != {"id": rec["thread"].id, "name": rec["thread"].name}:
+            probs.append("%s: record.thread is %r, the record's own is %r" % (where, r.get("thread"), rec["thread"]))
+        elif not jeq(r.get("extra"), expect_json(rec["extra"])):
+            probs.append("%s: record.extra differs from the record's own extra" % where)
+    return probs
+
+
 # ----------------------------------------------------------------------------- file sinks, enqueue=True: the consumer's view
 def gen_sink_case(seed):
     """6–10 logging calls written by a serialize=True FILE sink (optionally enqueue=True: the Message crosses a queue
@@ -1173,6 +1315,9 @@ def oracle(c, res, explicit_colour=False):
                 problems.append(("'text' is %r, str.format gives %r" % (parsed["text"][:80], plain[:80]), None))
         except Exception:  # noqa  (str(extra) may raise – not this property's business)
             pass
+    if explicit_colour and "ctwin" in res and parsed["text"] != res["ctwin"]:
+        problems.append(("colour was requested: 'text' is %r, a colorize=True handler without serialize gives %r"
+                         % (parsed["text"][:80], res["ctwin"][:80]), None))
     if not explicit_colour and "\x1b" in parsed["text"] and "\x1b" not in text_expected:
         problems.append(("colour codes in 'text' although colorize was not requested", None))
     r = parsed["record"]
@@ -1450,6 +1595,20 @@ def run(ctx):
     for i in range(int(ctx.n(70, 600) * boost)):
         check_catch_history(ctx, gen_catch_history(rng.next()), catch_lines, catch_exp)
 
+    # ---- stream 1e: LARGE records (not sent to `loads`; the model line is kept for the smaller ones only)
+    for i in range(ctx.n(4, 40)):
+        seed = rng.next()
+        c = gen_big_case(seed)
+        big_lines, big_pending = [], []
+        check_case(ctx, c, {"stream": "big", "case_seed": seed}, big_lines, big_pending, "big")
+        if big_lines and len(big_lines[0]) < 60000:
+            lines.extend(big_lines)
+            pending.extend(big_pending)
+
+    # ---- stream 1f: several threads through ONE serialize=True handler
+    for i in range(ctx.n(3, 20)):
+        check_threads_case(ctx, rng.next())
+
     # ---- stream 1d: serialize=True FILE sinks (half of them enqueue=True), read back line by line
     for i in range(ctx.n(12, 300)):
         check_sink_case(ctx, gen_sink_case(rng.next()))
@@ -1504,6 +1663,13 @@ def run(ctx):
             continue
         sem_lines.append("dec " + enc(tok))
         sem_exp.append(("scanstring(%r)" % tok, exp))
+    for i in range(ctx.n(300, 3000)):
+        # the consumer model `readLines` against Python's own line iteration (newline="\n": LF is the only terminator,
+        # which is what any reader sees on a text without CR)
+        t = "\n".join(gen_text(rng, 6) for _ in range(rng.choice([0, 1, 2, 3, 5]))) + rng.choice(["", "\n", "\n\n"])
+        exp_lines = io.StringIO(t, newline="\n").readlines()
+        sem_lines.append("readlines " + enc(t))
+        sem_exp.append(("readlines(%r)" % t, " ".join(["ok %d" % len(exp_lines)] + [enc(x) for x in exp_lines])))
     hist = {}
 
     def st(name):
@@ -1548,7 +1714,8 @@ def run(ctx):
             sem_exp.append(("json.loads(%r)" % e, exp))
 
     # ---- model `loads` on the real handler outputs: must parse and re-dump to the identical text (same driver run)
-    cand = ["loads " + enc(dec(impl[3:])[:-1]) for (_, impl, _) in pending if impl.startswith("ok ") and dec(impl[3:]).endswith("\n")]
+    cand = ["loads " + enc(dec(impl[3:])[:-1]) for (_, impl, _) in pending
+            if impl.startswith("ok ") and len(impl) < 40000 and dec(impl[3:]).endswith("\n")]
     sel = cand[::max(1, len(cand) // ctx.n(300, 5000))] if cand else []
 
     # ---- run the model
@@ -1693,7 +1860,22 @@ def replay(ctx, rep):
         return replay_catch(r)
     if stream == "sink":
         return replay_sink(r)
-    if stream in ("record", "colour"):
+    if stream == "threads":
+        probs = []
+        for attempt in range(1, 41):          # a race between threads: the same plan is run until it shows (at most 40 times)
+            plans, got, errors = run_threads_case(r["threads_seed"])
+            probs = threads_oracle(plans, got, errors)
+            if probs:
+                break
+        print("threads seed %d: %d threads x %d calls on one serialize=True handler, %d messages, %d calls raised (attempt %d)"
+              % (r["threads_seed"], len(plans), len(plans[0]), len(got), len(errors), attempt))
+        for what in probs[:10]:
+            print("  ORACLE: " + what)
+        print("REPRODUCED" if probs else "not reproduced in 40 attempts (a race between threads)")
+        return 1 if probs else 0
+    if stream == "big":
+        c = gen_big_case(r["case_seed"])
+    elif stream in ("record", "colour"):
         c = gen_case(r["case_seed"])
     elif stream == "corpus":
         c = case_from_corpus(r["case"])
